@@ -339,15 +339,25 @@ def metamorphic(ctx, out, rng, program, origin, ac=False):
         return
     sol0 = None
     w = 0.0
+    import gen_circ
     if ac:
         ws = [s['vals']['w'] for s in program if s['kind'] in gd.TWO_TERMINAL and 'w' in s.get('vals', {})]
         w = ws[0] if ws else 1.0
-    try:
-        sol0 = solve_complex(c0, w) if ac else solve_dc(c0)
-        if not all(math.isfinite(abs(z)) for z in list(sol0[0].values()) + list(sol0[1].values())):
-            sol0 = None
-    except Exception:
-        out.count('base_not_solvable')
+    # solutions are compared only for networks that are well-posed at the analysed frequency (decided exactly
+    # by the spec tableau of the driver): for a shorted source, a floating part … the solver's answer is
+    # not determined by the netlist and may depend on the order of the symbols
+    spec_base = gd.intended(program)
+    degenerate = (not spec_base['grounds']                      # no ground symbol: the reference node follows the symbol order
+                  or any(len(k_['terms']) == 2 and k_['terms'][0] == k_['terms'][1] for k_ in spec_base['comps']))   # shorted symbol (self-loop branch)
+    if ctx.driver is None or degenerate or not gen_circ.wellposed_at(ctx.driver, c0, w):
+        out.count('solution_compare_skipped:' + ('no_driver' if ctx.driver is None else 'degenerate' if degenerate else 'ill_posed'))
+    else:
+        try:
+            sol0 = solve_complex(c0, w) if ac else solve_dc(c0)
+            if not all(math.isfinite(abs(z)) for z in list(sol0[0].values()) + list(sol0[1].values())):
+                sol0 = None
+        except Exception:
+            out.count('base_not_solvable')
     spec0 = gd.intended(program)
     variants = []
     for k in range(1, 4):
@@ -504,13 +514,13 @@ def audit_streams(ctx, out, rng):
     # 1. rounding ties: translations / units that put coinciding terminals on a tie of round(x, 2)
     for geom in (dict(rot=0, unit=3.0, dx=0.005, dy=0.0), dict(rot=0, unit=3.0, dx=0.125, dy=0.125), dict(rot=1, unit=2.125, dx=0.0, dy=0.0)):
         check_case(ctx, out, TIE_LOOP, geom, 'tie_corpus')
-    for i in range(10 if ctx.quick else 300):
+    for i in range(10 if ctx.quick else 150):
         if ctx.time_left() < 40: break
         prog = gd.ladder_program(rng) if rng.random() < 0.6 else gd.random_program(rng)
         if gd.valid_program(prog):
             check_case(ctx, out, prog, gd.tie_geometry(rng), 'tie')
     # 2. linear (lossy) DC sources, placed by each of the four direction methods
-    for i in range(8 if ctx.quick else 120):
+    for i in range(8 if ctx.quick else 60):
         if ctx.time_left() < 35: break
         prog, geom = gd.linear_source_program(rng)
         if i < 4: geom = dict(geom, rot=i)
@@ -603,19 +613,19 @@ def run(ctx, out):
     for prog in CORPUS:
         for k in range(4):
             check_case(ctx, out, prog, dict(gd.IDENT, rot=k, unit=7.0), 'corpus')
-    n_random = 130 if ctx.quick else 3000
+    n_random = 130 if ctx.quick else 1600
     for i in range(n_random):
         if ctx.time_left() < 25: out.notes.append(f'random stream stopped after {i} cases (budget)'); break
         prog = gd.random_program(rng)
         check_case(ctx, out, prog, gd.random_geometry(rng), 'random')
-    n_mal = 6 if ctx.quick else 200
+    n_mal = 6 if ctx.quick else 80
     for i in range(n_mal):
         if ctx.time_left() < 20: break
         for prog in malformed_programs(rng):
             check_case(ctx, out, prog, gd.random_geometry(rng), 'malformed')
     audit_streams(ctx, out, ctx.rng('c13', 'audit'))
-    history_stream(ctx, out, ctx.rng('c13', 'history'), 10 if ctx.quick else 300)
-    n_meta = 11 if ctx.quick else 300
+    history_stream(ctx, out, ctx.rng('c13', 'history'), 10 if ctx.quick else 150)
+    n_meta = 11 if ctx.quick else 150
     for i in range(n_meta):
         if ctx.time_left() < 12: out.notes.append(f'metamorphic stream stopped after {i} programs (budget)'); break
         c = rng.random()
@@ -637,4 +647,13 @@ def replay(ctx, out, rp):
             if k in s: s[k] = tuple(s[k])
     if rp.get('extensions'):
         history_case(ctx, out, prog, rp['extensions'], geom, 'replay'); return
+    if rp.get('canon', {}).get('op') == 'metamorphic' and rp.get('base'):
+        base = rp['base']
+        for s in base:
+            for k in ('a', 'b'):
+                if k in s: s[k] = tuple(s[k])
+        ac = any('w' in s.get('vals', {}) for s in base if s['kind'] in gd.TWO_TERMINAL)
+        for trial in range(3):           # the variants are drawn from the seeded generator
+            metamorphic(ctx, out, ctx.rng('c13', 'replay', trial), base, 'replay', ac=ac)
+        return
     check_case(ctx, out, prog, geom, 'replay')
